@@ -114,6 +114,8 @@ def text_case():
                 l["trail"] = " "  # a comment needs whitespace in front of its '#'
         if last_eol is not None:
             lines[-1]["eol"] = last_eol
+        if lines[-1]["eol"] == "" and render_line(lines[-1]) == "":
+            lines[-1]["eol"] = "\n"  # an empty last line without EOL is no line at all
         return {"kind": "text", "lines": lines, "table": table, "newkw": newkw, "pick": pick}
 
     # suggestion table: a few overrides (possibly empty lists) over a deterministic default
